@@ -1,10 +1,10 @@
 SPECIFICATION Spec
-CONSTANT K = 3
-CONSTANT Receivers = {"r1", "r2"}
-CONSTANT WithError = TRUE
+CONSTANT K = 2
+CONSTANT Receivers = {}
+CONSTANT WithError = FALSE
 CONSTANT WithCallback = TRUE
-CONSTANT WithLocalClose = TRUE
-CONSTANT EndCallbackRaises = FALSE
+CONSTANT WithLocalClose = FALSE
+CONSTANT EndCallbackRaises = TRUE
 CONSTANT Fix_GuardEndmarkerCallback = TRUE
 CONSTANT Fix_CloseFlagFirst = TRUE
 INVARIANT OrderedDelivery
@@ -16,4 +16,4 @@ INVARIANT EndmarkerOnce
 INVARIANT ReceiverThreadSurvives
 PROPERTY WaitcloseReturns
 CHECK_DEADLOCK FALSE
-PROPERTY ReceiversFinish
+PROPERTY CallbackGetsAllWhenAlone
